@@ -48,8 +48,8 @@ LEVELS = {
         "note": TB + "Directory level (C01_directory_always_spec): after any sequence of requests the directory's tree is the specification trie over its leaves and the served epoch hash is its hash, under the premise that VRF outputs are well-formed 256-bit labels that do not collide (C18).",
     },
     "C02": {
-        "text": "Proof (Coq): unpublished labels are refused; every returned lookup proof reports the label's latest (value, version, epoch) together with the current epoch hash and its existence and marker membership proofs verify against that hash for every tree and hash function. Lookup generation and the full client verifier are modelled and tied to the code (structural equality of proofs, equality of verdicts and results) over random histories with forced power-of-two versions; every label is looked up (single and batched) after queried epochs and compared with an independent truth table.",
-        "note": TB + "PARTIAL: completeness of the freshness (non-membership) part and of the VRF checks is decided by correspondence + oracle.",
+        "text": "Proof (Coq), end to end: in every state reachable by publish requests, the proof an honest directory returns for a published label is accepted by the client verifier (lookup_verify) against the returned epoch hash and yields exactly the latest (epoch, version, value) (C02_lookup_accepted_and_latest with the reachable invariant C02_invariant2_reachable); unpublished labels are refused. Premises are the VRF-layer facts of C18 (well-formed 256-bit outputs, no collisions, the server's proof verifies to the output). Lookup generation and the full client verifier are modelled and tied to the code (structural equality of proofs, equality of verdicts and results) over random histories with forced power-of-two versions; every label is looked up (single and batched) after queried epochs and compared with an independent truth table.",
+        "note": TB + "batch_lookup = single lookups is decided by correspondence + oracle.",
     },
     "C03": {
         "text": "Key-history generation and the history verifier (shape checks, per-update checks, marker checks, tombstones) are modelled in Coq and tied to the code on every history proof and verdict (Complete and MostRecent N below/equal/above the number of versions); proved: unpublished labels are refused. The completeness statement itself is decided by the oracle (verified result = truth table) and the correspondence.",
@@ -68,8 +68,8 @@ LEVELS = {
         "note": TB + "Premises: VrfUnique; honest tree (validated for the code by the full-state correspondence of C01). Hash assumptions only as the disjunct Bad.",
     },
     "C07": {
-        "text": "Machine-checked theorem: in Default mode a verifying COMPLETE history proof yields exactly the label's true account newest first (nothing hidden at either end, no gaps, duplicates, reordering, wrong values or epochs) or exhibits a collision; and for every parameter each accepted entry is a true version with its true value and epoch. Uses the marker theorem (n+1 is always a future marker) and non-membership soundness. Verifier model tied to the code on adversarial histories incl. tombstones and late/missing stale markers; known finding K2 (tombstoned version 1 carries an unauthenticated epoch) is reproduced on the real code and listed.",
-        "note": TB + "PARTIAL: MostRecent-N exactness, the AllowMissingValues statement outside K2 and the late-stale-marker rejection are decided by correspondence + oracle.",
+        "text": "Machine-checked theorems: in Default mode a verifying COMPLETE history proof yields exactly the label's true account newest first (nothing hidden at either end, no gaps, duplicates, reordering, wrong values or epochs) and a verifying MostRecent(r) proof yields exactly the newest min(r, n) true entries, or a collision is exhibited; and for every parameter each accepted entry is a true version with its true value and epoch. Uses the marker theorem (n+1 is always a future marker) and non-membership soundness. Verifier model tied to the code on adversarial histories incl. tombstones and late/missing stale markers; known finding K2 (tombstoned version 1 carries an unauthenticated epoch) is reproduced on the real code and listed.",
+        "note": TB + "PARTIAL: the AllowMissingValues statement outside K2 and the late-stale-marker rejection are decided by correspondence + oracle.",
     },
     "C10": {
         "text": "Machine-checked theorem over the storage-manager model, generic in the program a publish runs inside its transaction: begin; ANY sequence of storage operations with ANY database call rejected and ANY cache evictions; then rollback, a commit the database rejects, or a commit refused for lack of an epoch record => database unchanged, no transaction open, log empty, cache coherent (so every later read answers as before). On the implementation, exhaustive fault enumeration over every storage operation index of publishes of every shape, cached/uncached, sequential/parallel, with database comparison and retry-equals-twin; three genuine defects found this way (cache filled before a rejected write; root hash read after commit; detached insertion task writing after rollback) were repaired.",
